@@ -616,6 +616,105 @@ def rule_r5(facts, col, bodies=None, rule_id="C09.R5"):
                 col.ok(rule_id, key, body.where(bb), "amount %s does not depend on another stream's fill" % show(need)[:50])
 
 
+_ONE = None
+
+
+def _positive(body, bb, x, lbs, depth=0):
+    """x >= 1 established at bb (on the paths currently considered)"""
+    global _ONE
+    if _ONE is None:
+        from ..mir import E
+        _ONE = E("const", v=1, ty="usize")
+    p = peel(x, through_try=False)
+    if p.k == "const":
+        return isinstance(p.v, int) and not isinstance(p.v, bool) and p.v >= 1
+    w = len_of_window(p)
+    if w:
+        return lbs.get(w[0], 0) >= 1
+    if p.k == "call" and (p.q in MIN_CALLS or p.rq in MIN_CALLS) and depth < 4:
+        return all(_positive(body, bb, a, lbs, depth + 1) for a in p.args)
+    if p.k == "bin" and p.op == "Mul" and depth < 4:
+        return _positive(body, bb, p.a, lbs, depth + 1) and _positive(body, bb, p.b, lbs, depth + 1)
+    return known_ge(body, bb, x, _ONE)
+
+
+def _range_end(e):
+    p = peel(e, through_try=False)
+    if p.k == "agg" and p.adt == "std::ops::RangeTo" and p.args:
+        return p.args[0]
+    if p.k == "agg" and p.adt == "std::ops::Range" and len(p.args) == 2:
+        return p.args[1]
+    return None
+
+
+def rule_r7(facts, col, rule_id="C09.R7"):
+    """a wait that is already satisfied is an `Again`: where work() returns WaitForStream(&self.W, c) on a path on which
+    len(window of W) >= c is established (so the runner's wait returns at once), that path has made progress.  Progress whose
+    amount may be zero does not count: consume/produce with a count not established >= 1 on that path, and the drain of as
+    many elements from the block's own buffer.  Loops that contain progress are taken to run (a window established non-empty
+    is iterated at least once)."""
+    for body in facts.impl_bodies(BLOCK_TRAIT, "work"):
+        if body.from_derive:
+            continue
+        cands = []
+        for bb, verdict, e in effects.verdict_defs(body):
+            if verdict != "WaitForStream" or e is None or len(e.args) < 2:
+                continue
+            tgt, need = wait_target(e), _const_int(e.args[1])
+            if tgt is None or need is None:
+                continue
+            cands.append((bb, tgt, need))
+        if not cands:
+            continue
+        eff = effects.Effects(facts, body)
+        countsites = {}
+        for bb, t in body.calls():
+            if bb in eff.progress and any(q in (effects.CONSUME, effects.PRODUCE) for q in Body.callee_qs(t)) and len(t["args"]) >= 2:
+                countsites[bb] = body.operand_expr(t["args"][1])
+        drains = {}
+        for bb, t in body.calls():
+            if bb in eff.progress and t["f"].get("name") in ("drain", "truncate") and len(t["args"]) >= 2:
+                end = _range_end(body.operand_expr(t["args"][1]))
+                if end is not None:
+                    drains[bb] = end
+        certain0 = set(eff.progress) - set(countsites) - set(drains)
+        # loops containing certain progress are assumed to execute
+        for comp in sccs(body):
+            if len(comp) > 1 and comp & certain0:
+                certain0 |= comp
+        with restricted_paths(body, certain0):
+            zc = {}
+            for bb, cnt in countsites.items():
+                if not _positive(body, bb, cnt, window_lower_bounds(body, bb, facts)):
+                    zc[bb] = cnt
+            zdr = set()
+            for bb, end in drains.items():
+                pe = peel(end, through_try=False)
+                parts = [pe] + ([pe.a, pe.b] if pe.k == "bin" and pe.op == "Mul" else [])
+                if any(same_expr(peel(c, through_try=False), peel(z, through_try=False)) for c in parts for z in zc.values()):
+                    zdr.add(bb)
+                elif not _positive(body, bb, end, window_lower_bounds(body, bb, facts)) and zc:
+                    zdr.add(bb)
+            certain = certain0 | (set(countsites) - set(zc)) | (set(drains) - zdr)
+        with restricted_paths(body, certain):
+            r = body.reachable(0, avoid=certain) if 0 not in certain else set()
+            for bb, tgt, need in cands:
+                key = "%s:wait(%s)@%s" % (body.q, tgt, _guard_desc(body, bb))
+                if bb not in r:
+                    col.ok(rule_id, key, body.where(bb), "reached only after certain progress")
+                    continue
+                lbs = window_lower_bounds(body, bb, facts)
+                if lbs.get(tgt, 0) >= need:
+                    col.bad(rule_id, key, body.where(bb),
+                            "work() answers WaitForStream(self.%s, %d) on a path where that stream's window is already established to "
+                            "hold %d and nothing has certainly moved (%s): the wait returns at once, work() is called again in the same "
+                            "state and answers the same - a busy loop that never ends" % (
+                                tgt, need, need,
+                                "; ".join("%s count %s may be 0" % (body.where(b), show(c)[:80]) for b, c in sorted(zc.items())) or "no stream or state effect"), {})
+                else:
+                    col.ok(rule_id, key, body.where(bb), "the awaited window is not established satisfied on the progress-free paths")
+
+
 def run(ctx):
     facts = ctx.facts("default")
     for w in WINDOW_TYPES:
@@ -626,6 +725,8 @@ def run(ctx):
     rule_r4(facts, ctx)
     rule_r6(facts, ctx)
     ctx.floor("C09.R6", 25, "WaitForStream-on-output verdicts of blocks that consume")
+    rule_r7(facts, ctx)
+    ctx.floor("C09.R7", 40, "WaitForStream verdicts with a constant amount in hand-written work() bodies")
     rule_r5(facts, ctx)
     ctx.floor("C09.R5", 60, "WaitForStream verdicts with a visible amount")
     ctx.floor("C09.R4", 30, "WaitForStream sites whose controlling test is a plain short-window test on the awaited stream")
